@@ -16,3 +16,34 @@ package stub
 //@   ensures window: result2 == nil ==> result1 != nil && *result1 == mkslice(textref, result0, len, len)
 //@   ensures counter_monotone: placeHolderIns.off >= old(placeHolderIns.off)
 //@   ensures wf_kept: holder_wf()
+
+//@ func acquireFromMMap
+//@   props C20
+//@   requires len_bound: 0 <= len
+//@   assigns nothing
+//@   ensures region: result2 == nil ==> result1 != nil && len(*result1) == len && cap(*result1) == len && len > 0 && fresh(*result1)
+//@   ensures addr_of_region: result2 == nil ==> result0 == addr(arr(*result1)) + off(*result1)
+
+//@ func Acquire
+//@   props C20
+//@   requires len_bound: 0 <= spaceLen && spaceLen < 0x100000000
+//@   requires wf: holder_wf()
+//@   assigns placeHolderIns.off, ticket_lo, ticket_hi
+//@   ensures err_nothing: result1 != nil ==> result0 == nil
+//@   ensures shape: result1 == nil ==> result0 != nil && fresh(result0) && result0.Space != nil && len(*result0.Space) == spaceLen && (result0.typ == TypeMMap || result0.typ == TypeHolder)
+//@   ensures mmap_region: result1 == nil && result0.typ == TypeMMap ==> fresh(*result0.Space) && spaceLen > 0 && result0.Addr == addr(arr(*result0.Space)) + off(*result0.Space)
+//@   ensures holder_region: result1 == nil && result0.typ == TypeHolder ==> result0.Addr == ticket_lo && result0.Addr + uintptr(spaceLen) == ticket_hi
+//@     | && placeHolderIns.min <= result0.Addr && ticket_hi <= placeHolderIns.max && *result0.Space == mkslice(textref, result0.Addr, spaceLen, spaceLen)
+//@   ensures wf_kept: holder_wf()
+
+//@ func Write
+//@   props C20 C07
+//@   requires s_ok: s != nil && s.Space != nil
+//@   requires fits: len(data) <= len(*s.Space) && len(data) < 0x100000000
+//@   requires data_is_ordinary_memory: arr(data) != textref
+//@   requires holder_window: s.typ == TypeHolder ==> s.Addr < 0x7fffffff00000000
+//@   requires mmap_region: s.typ == TypeMMap ==> arr(*s.Space) != textref && arr(*s.Space) != arr(data)
+//@   assigns (*s.Space)[0 : len(data)], textmem[s.Addr : s.Addr + uintptr(len(data))], perm, rw_wheld[addr(memory.memoryAccessLock)]
+//@   ensures mmap_copied: s.typ == TypeMMap ==> result == nil && forall i int :: 0 <= i && i < len(data) ==> (*s.Space)[i] == data[i]
+//@   ensures holder_written: s.typ == TypeHolder ==> result == nil && forall i int :: 0 <= i && i < len(data) ==> textmem[s.Addr + uintptr(i)] == data[i]
+//@   ensures bad_type_rejected: s.typ != TypeMMap && s.typ != TypeHolder ==> result != nil
